@@ -25,6 +25,7 @@ var initAllow = []string{
 	"io",
 	"github.com/cespare/xxhash",
 	"strings",
+	"github.com/rivo/uniseg",
 	"bytes",
 	"sort",
 	"slices",
